@@ -12,6 +12,7 @@ scenario = {
   an event may be [dt, burst, kind, hex, cut, lead]: (real runs only) its first `cut` bytes arrive `lead` ticks early
   plan character "z" (real runs only): the handler takes "cb_delay" ticks
   "closer": optional [t, ...]      (real runs only) a second thread calling app.close() at tick t
+  "write_fails_once": optional [i, t]   (real runs only) the first write on connection i from tick t on fails (socket.timeout), once
   "writes_fail": optional [i, t]   (real runs only) every write on connection i fails (EHOSTUNREACH) from tick t on; reads stay silent
 }
 kinds: t/T text whole/fragmented, b/B binary, p ping, q pong, c close, e eof, r reset, x protocol error,
@@ -298,6 +299,8 @@ def run_real(sc, line_preempt=None, wall_s=20.0, max_steps=6000):
         s.stall_after_send = tuple(sc["stall_after_send"])
     if sc.get("writes_fail"):
         s.writes_fail = tuple(sc["writes_fail"])          # (connection index, tick): real runs only
+    if sc.get("write_fails_once"):
+        s.write_fails_once = tuple(sc["write_fails_once"])   # (connection index, tick): the first write from tick t on fails, once
     net = MultiNet(s, ssl_style=bool(sc.get("ssl")))
     plan = sc.get("plan", {})
     counts = {n: 0 for n in CBS}
@@ -325,6 +328,10 @@ def run_real(sc, line_preempt=None, wall_s=20.0, max_steps=6000):
             if a == "z":
                 # (real runs only) a handler that TAKES TIME: `cb_delay` ticks pass inside the callback
                 s.block(None, s.now + int(sc.get("cb_delay", 1)))
+            if sc.get("cookie_rotate") and name in ("on_open", "on_reconnect"):
+                # (real runs only) the application rotates its session cookie whenever a connection has come up
+                holder["rot"] = holder.get("rot", 0) + 1
+                app.cookie = f"session=s{holder['rot']}"
         f.__name__ = name
         return f
     mask = sc.get("cbs", ALL)
@@ -341,6 +348,17 @@ def run_real(sc, line_preempt=None, wall_s=20.0, max_steps=6000):
             app = websocket.WebSocketApp(url)
         for n, f in kw.items():
             setattr(app, n, f)
+    elif sc.get("positional"):
+        # (real runs only) the constructor's arguments given POSITIONALLY, in the documented order of its signature:
+        # url, header, on_open, on_reconnect, on_message, on_error, on_close, on_ping, on_pong, on_cont_message, keep_running,
+        # get_mask_key, cookie, subprotocols, on_data   ("positional" = how many of them are positional; the rest by keyword)
+        order = ["header", "on_open", "on_reconnect", "on_message", "on_error", "on_close", "on_ping", "on_pong",
+                 "on_cont_message", "keep_running", "get_mask_key", "cookie", "subprotocols", "on_data"]
+        dflt = {"keep_running": True}
+        npos = int(sc["positional"])
+        pos = [kw.get(n, dflt.get(n)) for n in order[:npos]]
+        rest = {n: f for n, f in kw.items() if n not in order[:npos]}
+        app = websocket.WebSocketApp(url, *pos, **rest)
     else:
         app = websocket.WebSocketApp(url, **kw)
     # (real runs only) per-fragment delivery: "cont_cb" = "init" (on_cont_message given to the constructor) | "late" (assigned
@@ -354,12 +372,17 @@ def run_real(sc, line_preempt=None, wall_s=20.0, max_steps=6000):
                 app.on_cont_message = None
         else:
             app.on_cont_message = on_cont
+    if sc.get("cookie_rotate"):
+        app.cookie = "session=s0"
     if sc.get("header_seq"):
         # (real runs only) a callable `header` whose value differs for every connection
         seq = holder.setdefault("hseq", [0])
 
         def header_fn():
             seq[0] += 1
+            if (seq[0] - 1) in (sc.get("header_raises") or ()):
+                # the header provider itself fails on this attempt (a token service that is down, say)
+                raise RuntimeError("header provider failed")
             return [f"X-Conn-Seq: {seq[0]}"]
         app.header = header_fn
     holder["app"] = app
@@ -507,6 +530,7 @@ def run_real(sc, line_preempt=None, wall_s=20.0, max_steps=6000):
     res.leaked = net.live()
     res.leaked_at_return = live_at_ret
     res.wraps = wraps
+    res.requests = list(getattr(s, "requests", []))
     return res
 
 
